@@ -214,33 +214,6 @@ Proof.
   - now apply buf_ok_remove.
 Qed.
 
-Definition is_nil {A} (l : list A) : bool := match l with [] => true | _ => false end.
-Lemma hr_PortData m p f l w ps ids n :
-  handle_received m (PortData p f l w ps ids) n =
-  match lookup p (ports m) with
-  | Some (Connected c) =>
-      if rx_open c then
-        if is_nil ps then Proto PEmptyPorts []
-        else match ins_out ps (outstanding m) with
-             | None => Proto PPortTwice []
-             | Some o =>
-                 let size := PORT_COST * len ps in
-                 if (size <? 4294967296) && (size <=? cfg_chunk m) then
-                   if (used c + size <? 4294967296) && (used c + size <=? cfg_buffer m) then
-                     Done (m <| outstanding := o |>
-                             <| ports := insert p (Connected (c <| rxq := rxq c ++ [(size, ps)] |>)) (ports m) |>)
-                          [PortRequests p ps]
-                   else Proto POverdraw []
-                 else Proto PPortChunk []
-             end
-      else Proto PPortDataNotConnected []
-  | _ => Proto PPortDataNotConnected []
-  end.
-Proof.
-  cbn [handle_received]. destruct (lookup p (ports m)) as [[|c]|]; try reflexivity.
-  destruct (rx_open c); [|reflexivity]. destruct ps; reflexivity.
-Qed.
-
 Lemma rv_PortData p f l w ps ids n : Fin (finish e (handle_received (mx e) (PortData p f l w ps ids) n)).
 Proof.
   destruct Hcore as (C1 & C2 & C3 & C4 & C5).
